@@ -2,7 +2,7 @@
 //!
 //! Multi-thread runtime, real time: the real push loop ticking every millisecond while several tasks create and
 //! delete push subscriptions (and get / pull them).  A watchdog OUTSIDE the runtime watches a progress counter: if
-//! nothing completes for 5 s although the tasks are not finished, requests are waiting for ever (C07: e.g. a lock taken
+//! nothing completes for 15 s although the tasks are not finished, requests are waiting for ever (C07: e.g. a lock taken
 //! in opposite orders by the push loop and by CreateSubscription).
 //! Prints: PUSHSTRESS completed=<n> hung=<0|1>
 use deltio::subscriptions::{PushConfig, SubscriptionInfo, SubscriptionName};
@@ -76,7 +76,7 @@ pub fn main_pushstress(args: &[String]) -> i32 {
         let now = done.load(Ordering::SeqCst);
         if now != last.0 {
             last = (now, Instant::now());
-        } else if last.1.elapsed() > Duration::from_secs(5) {
+        } else if last.1.elapsed() > Duration::from_secs(15) {
             println!("PUSHSTRESS completed={} hung=1", now);
             std::process::exit(0);
         }
